@@ -311,6 +311,28 @@ def check_monitor(ctx, R="C11.monitor"):
         ctx.ok(R, st, "_step: every requirement monitor is advanced first and B4.FALSE rejects the simulation")
     else:
         ctx.finding(R, st, "_step monitors first", "DynamicScenario._step no longer begins by advancing all requirement monitors and rejecting on B4.FALSE")
+    # every user requirement is bound for the simulation: a filter (e.g. on the root node's is_temporal flag) drops
+    # requirements whose temporal operators sit below a Boolean connective
+    mk = model.func("scenic.core.scenarios", "Scenario._makeSceneFromSample")
+    binds = [g for g in ast.walk(mk) if isinstance(g, (ast.GeneratorExp, ast.ListComp)) and isinstance(g.elt, ast.Call) and dotted(g.elt.func) == "BoundRequirement"]
+    if len(binds) < 1:
+        raise AnalysisError("shape not recognised: BoundRequirement construction in Scenario._makeSceneFromSample")
+    # the one ranging over the scenario's `require` statements (the others bind termination conditions and records)
+    others = ("terminationConditions", "terminateSimulationConditions", "recordedExprs", "recordedInitialExprs", "recordedFinalExprs")
+    binds = [g for g in binds if not any(unparse(g.generators[0].iter) == f"self.{o}" for o in others)]
+    if len(binds) != 1:
+        raise AnalysisError("shape not recognised: binding of the scenario's requirements in Scenario._makeSceneFromSample")
+    gb = binds[0].generators
+    if len(gb) == 1 and unparse(gb[0].iter) == "self.requirements" and not gb[0].ifs:
+        ctx.ok(R, binds[0], "all of the scenario's requirements are bound (and hence monitored) for the simulation")
+    else:
+        ctx.finding(
+            R,
+            binds[0],
+            "requirements filtered before monitoring",
+            f"Scenario._makeSceneFromSample binds requirements from `{unparse(gb[0].iter)}` filtered by {[unparse(t) for g_ in gb for t in g_.ifs]}: a requirement the filter drops is never monitored during "
+            f"the simulation (is_temporal is a flag of the root node only, so `not always a` or `a implies eventually b` would be dropped)",
+        )
     sp = model.func(DS, "DynamicScenario._stop")
     loops = [n for n in walk_local(sp) if isinstance(n, ast.For) and unparse(n.iter) == "self._requirementMonitors"]
     good = False
